@@ -3,13 +3,14 @@ from .. import engine, gen, codec, refhash
 from .base import Prop, viol, ownership_violations
 
 E = codec.enc
-CFG_HOST = "mycluster.abc123.cfg.use1.cache.amazonaws.com"
+CFG_HOST = "my-cluster.abc123.cfg.use1.cache.amazonaws.com"
 CFG_IP = "10.9.0.1"
 MAXN = 8
 
 
 def fqdn(i):
-    return "mycluster.abc123.%04d.use1.cache.amazonaws.com" % (i + 1)
+    # cluster ids may contain hyphens
+    return "my-cluster.abc123.%04d.use1.cache.amazonaws.com" % (i + 1)
 
 
 def ip(i):
@@ -41,7 +42,7 @@ class C19(Prop):
 
     def plan(self, tier):
         if tier == "quick":
-            return {"units": 40000, "budget_s": 90, "block": 100}
+            return {"units": 20000, "budget_s": 90, "block": 100}
         return {"units": 1200000, "budget_s": 1500, "block": 200}
 
     def cluster(self, version, ids):
@@ -71,7 +72,12 @@ class C19(Prop):
 
         def corpus():
             for _ in range(rng.randint(3, 8)):
-                m = rng.choice(["set", "get", "get", "get_many", "delete", "set_many"])
+                m = rng.choice(["set", "get", "get", "get_many", "delete", "set_many", "broadcast"])
+                if m == "broadcast":
+                    # operations that go to every server the client knows
+                    bm = rng.choice(["flush_all", "stats", "close", "quit"])
+                    steps.append({"t": "call", "m": bm, "a": [], "k": {}, "tag": "broadcast"})
+                    continue
                 if m == "set":
                     steps.append({"t": "call", "m": "set", "a": [E(rng.choice(keys)), E(b"v")], "k": {}})
                 elif m in ("get", "delete"):
@@ -150,7 +156,7 @@ class C19(Prop):
                 cl = st["cluster"]
         if not isinstance(cl, dict):
             return None
-        return [int(n[0].split(".")[2]) - 1 for n in cl["nodes"]]
+        return [int(n[0].split(".")[2]) - 1 for n in cl["nodes"]]      # "<cluster>.<id>.<nnnn>.use1..."
 
     def judge(self, scn, res):
         out = []
@@ -207,6 +213,19 @@ class C19(Prop):
                 check_sockets(rec, adv)
                 continue
             names = names_of(adv)
+            if tag == "broadcast":
+                allowed = set(names.values())
+                touched = []
+                for ev in w.events[rec.ev0:rec.ev1]:
+                    if ev[3] >= 0 and ev[4] in ("connect", "sendall"):
+                        t = w.sockets[ev[3]].target
+                        if t not in allowed and t not in touched:
+                            touched.append(t)
+                if touched:
+                    out.append(viol("broadcast-reached-unadvertised-node", rec, nodes=touched,
+                                    advertised=sorted(allowed)))
+                check_sockets(rec, adv)
+                continue
             down = {st2["id"] for st2 in () }
             health = {}
             for st2 in scn["steps"][:rec.step]:
@@ -269,7 +288,7 @@ class C19(Prop):
     def probe_names(self):
         return ("scale-down-then-traffic", "scale-up-then-traffic", "config-reply-split-in-many-pieces",
                 "endpoint-answers-ERROR", "use_vpc-off-fqdn", "six-nodes", "single-node",
-                "dead-node-scaled-away-then-dead_timeout-elapsed")
+                "dead-node-scaled-away-then-dead_timeout-elapsed", "broadcast-operation-after-reconfigure")
 
     def probes(self, scn, res):
         p = {}
@@ -292,6 +311,12 @@ class C19(Prop):
                 p["endpoint-answers-ERROR"] = 1
         if scn["first"] is None:
             p["endpoint-answers-ERROR"] = 1
+        seen_reconf = False
+        for st in scn["steps"]:
+            if st.get("tag") == "reconf":
+                seen_reconf = True
+            if st.get("tag") == "broadcast" and seen_reconf:
+                p["broadcast-operation-after-reconfigure"] = 1
         if any(st.get("tag") == "preamble" for st in scn["steps"]):
             p["dead-node-scaled-away-then-dead_timeout-elapsed"] = 1
         for c in res.calls:
